@@ -68,6 +68,7 @@ class _Runner:
       if k not in names:
         raise ValueError(f'Invalid Input name ({k}) for SignatureDef')
     it._invocation += 1
+    it._since_reset = getattr(it, '_since_reset', 0) + 1
     it._fed = {(self._subgraph_index, names[k]): v for k, v in kwargs.items()}
     it._last = (self._subgraph_index, STATE['sample'])
     it._invoked_subgraphs.add(self._subgraph_index)
@@ -104,7 +105,7 @@ class Interpreter:
     self._allocated = True
 
   def reset_all_variables(self):
-    pass
+    self._since_reset = 0
 
   def get_signature_list(self):
     out = {}
@@ -170,6 +171,7 @@ class Interpreter:
 
   def invoke(self):
     self._invocation += 1
+    self._since_reset = getattr(self, '_since_reset', 0) + 1
     self._last = (0, STATE['sample'])
     self._invoked_subgraphs.add(0)
 
@@ -193,6 +195,11 @@ class Interpreter:
     else:
       sample = STATE['sample']
       sg = self._model.subgraphs[subgraph_index]
+      if getattr(self, '_since_reset', 1) > 1 and any(
+          getattr(tt, 'isVariable', False) for tt in sg.tensors):
+        # a stateful subgraph (variable tensors) invoked again without
+        # reset_all_variables(): what it computes depends on the earlier runs
+        sample = ('stale-state', sample, self._since_reset)
       if not self._preserve and index not in list(sg.inputs) + list(
           sg.outputs):
         # without experimental_preserve_all_tensors the memory planner may
